@@ -65,11 +65,11 @@ MUTANTS = [
     M("c05-refactor-linear-guards-merged", "C05", "refactor", [("optimum/quanto/tensor/qtensor_func.py", "    if isinstance(other, QBytesTensor) and (other.ndim != 2 or other.axis not in (None, 0)):\n        other = other.dequantize()\n", "    if isinstance(other, QBytesTensor) and not (other.ndim == 2 and other.axis in (None, 0)):\n        other = other.dequantize()\n")]),
     M("c11-refactor-linear-guards-merged", "C11", "refactor", [("optimum/quanto/tensor/qtensor_func.py", "    if isinstance(other, QBytesTensor) and (other.ndim != 2 or other.axis not in (None, 0)):\n        other = other.dequantize()\n", "    if isinstance(other, QBytesTensor) and not (other.ndim == 2 and other.axis in (None, 0)):\n        other = other.dequantize()\n")]),
     # ---------------- stride hazards (F35) and scale products (F36)
-    M("c07-intmm-no-contiguous-again", "C07", "break", [("optimum/quanto/library/qbytes_mm.py", "    # torch._int_mm reads its first operand as a dense matrix: materialize expanded (stride 0) activations\n    activations = activations.contiguous()\n", "")], "C07.R5"),
-    M("c07-int8pack-no-contiguous-again", "C07", "break", [("optimum/quanto/library/qbytes_mm.py", "    # and activations that are contiguous on their last dimension\n    activations = activations.contiguous()\n", "")], "C07.R5"),
+    M("c07-intmm-no-contiguous-again", "C07", "break", [("optimum/quanto/library/qbytes_mm.py", "    # torch._int_mm reads its operands as dense matrices: materialize expanded (stride 0) activations and weights\n    activations = activations.contiguous()\n", "")], "C07.R5"),
+    M("c07-int8pack-no-contiguous-again", "C07", "break", [("optimum/quanto/library/qbytes_mm.py", "    # and contiguous activations and weights\n    activations = activations.contiguous()\n", "    # and contiguous activations and weights\n")], "C07.R5"),
     M("c07-mm-handler-no-contiguous-again", "C07", "break", [(OPS, "torch._int_mm(input._data.contiguous(), other._data.contiguous())", "torch._int_mm(input._data.contiguous(), other._data)")], "C07.R5"),
     M("c05-mm-handler-no-contiguous-again", "C05", "break", [(OPS, "torch._int_mm(input._data.contiguous(), other._data.contiguous())", "torch._int_mm(input._data, other._data.contiguous())")], "C05.R14"),
-    M("c07-refactor-contiguous-after-reshape", "C07", "refactor", [("optimum/quanto/library/qbytes_mm.py", "    # torch._int_mm reads its first operand as a dense matrix: materialize expanded (stride 0) activations\n    activations = activations.contiguous()\n", ""),
+    M("c07-refactor-contiguous-after-reshape", "C07", "refactor", [("optimum/quanto/library/qbytes_mm.py", "    # torch._int_mm reads its operands as dense matrices: materialize expanded (stride 0) activations and weights\n    activations = activations.contiguous()\n", ""),
                                                                    ("optimum/quanto/library/qbytes_mm.py", "        out_data = torch._int_mm(activations, weights)\n", "        out_data = torch._int_mm(activations.contiguous(), weights)\n"),
                                                                    ("optimum/quanto/library/qbytes_mm.py", "        out_data = torch._int_mm(activations.reshape(-1, in_features), weights)\n", "        out_data = torch._int_mm(activations.reshape(-1, in_features).contiguous(), weights)\n")]),
     M("c07-linear-scale-product-fp16-again", "C07", "break", [("optimum/quanto/tensor/qtensor_func.py", "output_scales = input._scale.to(torch.float32) * other._scale.to(torch.float32)", "output_scales = input._scale * other._scale")], "C07.R10"),
@@ -116,4 +116,10 @@ MUTANTS = [
     M("c06-tocopy-memory-format-to-scale-again", "C06", "break", [(OPS, "    out_scale = op(t._scale, dtype=dtype, **scale_kwargs)", "    out_scale = op(t._scale, dtype=dtype, **kwargs)")], "C06.R4"),
     M("c06-clone-memory-format-to-scale-again", "C06", "break", [(OPS, "    out_scale = op(t._scale)\n    return QBytesTensor(t.qtype, t.axis, t.size(), out_stride, out_data, out_scale)", "    out_scale = op(t._scale, memory_format=memory_format)\n    return QBytesTensor(t.qtype, t.axis, t.size(), out_stride, out_data, out_scale)")], "C06.R4"),
     M("c05-linear-rank1-weight-again", "C05", "break", [("optimum/quanto/tensor/qtensor_func.py", "(other.ndim != 2 or other.axis not in (None, 0))", "(other.axis is not None and (other.ndim != 2 or other.axis != 0))")], "C05.R14"),
+    M("c07-intmm-weights-not-contiguous-again", "C07", "break", [("optimum/quanto/library/qbytes_mm.py", "    weights = weights.contiguous().t()", "    weights = weights.t()")], "C07.R5"),
+    M("c07-int8pack-weights-not-contiguous-again", "C07", "break", [("optimum/quanto/library/qbytes_mm.py", "    activations = activations.contiguous()\n    weights = weights.contiguous()\n", "    activations = activations.contiguous()\n")], "C07.R5"),
+    M("c07-cuda-route-asserts-rank-again", "C07", "break", [("optimum/quanto/library/qbytes_mm.py", "    in_features = activations.shape[-1]\n    # All the dimensions but the last one are batch dimensions", "    assert activations.ndim in (2, 3)\n    in_features = activations.shape[-1]\n    # All the dimensions but the last one are batch dimensions")], "C07.R5"),
+    M("c05-div-rejects-rounding-mode-again", "C05", "break", [(OPS, "def div(op, input, other, rounding_mode=None):\n    if not is_scalar(other) or rounding_mode is not None:", "def div(op, input, other):\n    rounding_mode = None\n    if not is_scalar(other) or rounding_mode is not None:")], "C05.R19"),
+    M("c05-refactor-div-kwargs", "C05", "refactor", [(OPS, "def div(op, input, other, rounding_mode=None):\n    if not is_scalar(other) or rounding_mode is not None:", "def div(op, input, other, **kwargs):\n    if not is_scalar(other) or kwargs.get(\"rounding_mode\") is not None:"),
+                                                     (OPS, "        return qfallback(op, input, other, rounding_mode=rounding_mode)", "        return qfallback(op, input, other, **kwargs)")]),
 ]
